@@ -39,7 +39,7 @@ NAN = float("nan")
 
 C01_OPS = ("create", "update", "remove", "setitem", "setitem_delete", "setitem_func", "setobs",
            "add_af", "operate", "operate_list", "apply", "aggregate", "correlator", "expr", "expr_noeq", "rejected",
-           "operate_any", "aggregate_any")
+           "operate_any", "aggregate_any", "biop")
 # operator objects whose values are not modelled: the output column is adopted after the call
 # and everything else (names, widths, other columns, positions, timestamps) must be unchanged
 ANY_UNARY = ("FORWARD_FINITE_DIFF", "BACKWARD_FINITE_DIFF", "CENTERED_FINITE_DIFF", "SECOND_ORDER_FINITE_DIFF",
@@ -170,7 +170,7 @@ class TrackWorld(World):
                 "fork_rate": r.choice([0, 0.02, 0.08]), "names": list(NAMES[: r.choice([2, 3, 4, 4])]),
                 "sorted_tracks": 0.9 if focus == "C17" else r.choice([0.2, 0.6, 0.9]),
                 "renew": r.choice([0.01, 0.05, 0.15]), "callable_faults": r.choice([0, 0, 0.15, 0.4]),
-                "np_time": r.random() < 0.08}
+                "np_time": r.random() < 0.08, "zones": r.random() < 0.1}
 
     @classmethod
     def deepen(cls, cfg, r):
@@ -423,6 +423,10 @@ class TrackWorld(World):
             return {"opr": r.choice(ANY_AGG_U), "in1": self._pick_input(r, m)}
         return {"opr": r.choice(ANY_AGG_B), "in1": self._pick_input(r, m), "in2": self._pick_input(r, m)}
 
+    def _g_biop(self, r, m):
+        return {"other": r.randrange(self.cfg["sessions"]), "a": self._pick_input(r, m), "b": r.choice(NAMES),
+                "out": self._pick_name(r, m, False), "refused": r.random() < 0.3, "alias": r.random() < 0.3}
+
     def _g_correlator(self, r, m):
         return {"in1": self._pick_name(r, m, True), "in2": self._pick_name(r, m, True),
                 "out": self._pick_name(r, m)}
@@ -631,7 +635,7 @@ class TrackWorld(World):
         return {}
 
     def _g_ds(self, r, m):
-        return {}
+        return {"how": r.choice(["algo", "algo", "diff"])}
 
     def _g_abs_curv(self, r, m):
         if "abs_curv" in m["names"] and r.random() < 0.5:
@@ -646,6 +650,10 @@ class TrackWorld(World):
     # ------------------------------------------------------------ real objects
     def _mk_obs(self, o):
         from tracklib.core import Obs, ENUCoords, ObsTime
+        if self.cfg.get("zones"):
+            # fixes recorded by devices set to different time zones: the zone is carried, comparisons are on the fields
+            zone = int(round(o[2] * 2 ** 24)) % 3 - 1
+            return Obs(ENUCoords(o[0], o[1], o[2]), ObsTime(*(list(o[3]) + [zone])))
         if self.cfg.get("np_time"):
             # timestamps built from the columns of a numpy array: the fields are numpy integers
             import numpy
@@ -1333,6 +1341,43 @@ class TrackWorld(World):
         self._check_all("C01", "operate %s (read-only)" % opr)
         self.observed([opr, None if exc is None else type(exc).__name__])
         return "ok" if exc is None else "domain"
+
+    def op_biop(self, st):
+        """bioperate: an expression over two tracks of equal size (b° is feature b of the second
+        track); the result is a new feature of the first one, the second one is only read.  A
+        refused request (unknown name) leaves both as they were."""
+        t, m = self._sess(st)
+        o = st["other"]
+        if o not in self.model or o == st.get("s", 0):
+            raise Skip()
+        t2, m2 = self.real[o], self.model[o]
+        n = len(m["obs"])
+        if n == 0 or len(m2["obs"]) != n or m2.get("dup_obs") or m2.get("loose_rows"):
+            raise Skip()
+        a, b, out = st["a"], st["b"], st["out"]
+        if not self._input_ok(m, a) or not self._input_ok(m2, b) or b not in m2["names"] or out in m["names"] \
+                or out in RESERVED:
+            raise Skip()
+        fn = t.biop if st.get("alias") else t.bioperate
+        if st.get("refused"):
+            _, exc = self.call(fn, t2, "%s=%s°+zz9" % (out, b))
+            self.stats["fault_fired:rejected_request"] += 1
+            if exc is None:
+                raise Skip()
+            self.probe("two_track_expression_refused")
+            self._check_all("C01", "refused bioperate (nothing may change on either track)")
+            return "rejected"
+        rv, exc = self.call(fn, t2, "%s=%s°+%s" % (out, b, a))
+        if exc is not None:
+            return self._unexpected("C01", exc, "bioperate")
+        exp = [u + v for u, v in zip(self._col(m2, b), self._col(m, a))]
+        self._setcol(m, out, exp)
+        if rv is not None and not leq(list(rv), exp):
+            self.fail("C01", "return.values", "bioperate returned other values than feature %r of the second track "
+                      "plus feature %r of the first" % (b, a), jsonable(exp), jsonable(list(rv)))
+            return
+        self.probe("expression_over_two_tracks")
+        self._check_all("C01", "bioperate")
 
     def op_correlator(self, st):
         """Binary operator object whose values are not modelled (adopted after the
@@ -2065,6 +2110,9 @@ class TrackWorld(World):
         if n == 0:
             raise Skip()
         i, j = sorted((st["i"] % n, st["j"] % n))
+        if (st["i"] + st["j"]) % 9 == 0:
+            j = i - 1                       # an empty range (the accumulate pattern starts from it)
+            self.probe("empty_index_range")
         self._derive(st, "extract(%d, %d)" % (i, j), lambda: t.extract(i, j), m["obs"][i:j + 1], m)
 
     def op_slice(self, st):
@@ -2194,6 +2242,12 @@ class TrackWorld(World):
         if target is None or not hasattr(target, "getObs"):
             raise Skip()
         nm = self._adopt_all(target, st.get("tag0", 10 ** 6))
+        if nm is not None and nm.get("loose_rows"):
+            self.fail("C01", "table.width", "%s: the track that comes out lists %d feature(s) but some of its "
+                      "observations carry more values (the next feature created on it will be read from the wrong "
+                      "column)" % (k, len(nm["names"])), len(nm["names"]),
+                      sorted(set(len(target.getObs(i).features) for i in range(target.size()))))
+            return
         dest = to if fork else s
         if fork:
             self._check_all("C04", "%s (the source track must be unchanged)" % k)
@@ -2725,6 +2779,26 @@ class TrackWorld(World):
         n = len(m["obs"])
         if n < 1:
             raise Skip()
+        if st.get("how") == "diff":
+            # leg lengths obtained by differentiating the abscissa (NaN on the first fix, by definition)
+            from tracklib.core import Operator
+            if "abs_curv" not in m["names"] or m["fresh"].get("abs_curv") != m["geo"] or "ds" in m["names"]:
+                raise Skip()
+            rv, exc = self.call(t.operate, Operator.DIFFERENTIATOR, "abs_curv", "ds")
+            if exc is not None:
+                return self._unexpected("C17", exc, "operate(DIFFERENTIATOR, abs_curv, ds)")
+            col = list(t["ds"])
+            exp = [NAN] + [math.sqrt((a["x"] - b["x"]) ** 2 + (a["y"] - b["y"]) ** 2)
+                           for a, b in zip(m["obs"], m["obs"][1:])]
+            if len(col) != n or any(not close(a, b, 1e-6) for a, b in zip(col, exp)):
+                self.fail("C17", "ds.definition", "leg lengths from the differentiated abscissa", jsonable(exp),
+                          jsonable(col))
+                return
+            self._setcol(m, "ds", col)
+            m["fresh"]["ds"] = m["geo"]
+            self.probe("leg_lengths_from_the_differentiated_abscissa")
+            self._check_all("C17", "operate(DIFFERENTIATOR, abs_curv, ds)")
+            return
         rv, exc = self.call(t.addAnalyticalFeature, ds, "ds")
         if exc is not None:
             return self._unexpected("C17", exc, "addAnalyticalFeature(ds)")
